@@ -190,9 +190,12 @@ CLAIMS = {
               "reachable state, i.e. every interleaving of wakes (incl. spurious and repeated), worker steps and cancellation (task_inv_reachable, induction over the action list) gives task_no_lost_wake (a wake arriving after "
               "the last poll began leaves `pending` set or a run queued), task_never_polled_after_complete, cancel_reports_error (cancel of an uncompleted task reports the error in the same step, whatever the task is doing) "
               "and poll_error_reported. Barrier model of the countdown + flag + PartitionWakers pattern used by every cross-partition phase: barrier_no_lost_wake - for every partition count and every interleaving of arrivals "
-              "and polls, once the flag is set no partition stays parked un-woken; the variant without wake_all loses a wake (witness). Tie: the harness implements PipelineRuntime itself, owns the partition pipelines and "
-              "polls them one at a time, wake-only, under random / fifo / lifo / client-starving / client-first schedules with injected spurious wakes: 40 query shapes covering every barrier kind x 5 partition counts x ~46 "
-              "schedules must terminate (no runnable task while unfinished = lost wake-up, reported with the schedule) with the result of the ordinary run; on the real thread pool QueryHandle::cancel at 0/20/150 ms of long "
+              "and polls, once the flag is set no partition stays parked un-woken; the variant without wake_all loses a wake (witness). Execution stack (Core/ExecStack.lean, code-shaped model of ExecutionStack::pop_next with the operators' poll "
+              "results as input): stack_finished_all_finalized - for every number of operators and every sequence of poll results, a partition pipeline that reports Finished has finalized every operator or seen it answer Exhausted "
+              "(so no join in another partition waits on it forever), and stack_finalizes_once; old_stack_skips_finalize is the pinned commit's stack finishing with the probe side of a join never finalized (F38/F64, repaired). Tie: the harness implements PipelineRuntime itself, owns the partition pipelines and "
+              "polls them one at a time, wake-only, under random / fifo / lifo / client-starving / client-first schedules with injected spurious wakes: 49 query shapes covering every barrier kind x 5 partition counts x ~46 "
+              "schedules must terminate (no runnable task while unfinished = lost wake-up, reported with the schedule) with the result of the ordinary run; ~580 (quick) generated typed queries run under the same scheduler; the real ExecutionStack driven by 4000 (quick) / 150000 scripted poll sequences through a cfg hook must make exactly the calls of ExecStack.step "
+              "and satisfy the theorem's statement on its own call log; on the real thread pool QueryHandle::cancel at 0/20/150 ms of long "
               "scans / joins / sorts must end the stream with an error promptly, 450 cancels at 0-30 ms while the client drains a result must all end (the lock-order inversions F58/F59 deadlocked here), a run-time "
               "error in one partition must reach the client for 1-16 partitions, and every ScheduleState transition of every task logged by the cfg hook in glaredb_rt_native must be a run of the Task model (Proto.accept)."),
         note=TB + "the protocol models are abstractions (per-operator instances of the barrier are not modelled one by one; the real operators are tied by the controlled-scheduler runs); interleavings inside one poll_execute and "
